@@ -41,21 +41,21 @@ def pend (ls : Tid → Loc) : Nat → List Nat
   | n + 1 => contrib (ls (n + 1)) ++ pend ls n
 
 /-- a worker that will run without anybody's help once the mutex is free -/
-def Active (g : Sh) (ls : Tid → Loc) (w : Tid) : Prop :=
+def Active (g : Sh) (ls : Tid → Loc) (w : Nat) : Prop :=
   (ls w).pc ≠ .wret ∧ ¬ ((ls w).pc = .w3p ∧ w ∈ g.consume)
 
 /-- a worker that will signal `produce` before it can park or return -/
-def Owing (ls : Tid → Loc) (w : Tid) : Prop :=
+def Owing (ls : Tid → Loc) (w : Nat) : Prop :=
   (ls w).pc = .w8 ∨ (ls w).pc = .w9 ∨ (ls w).pc = .w0 ∨ (ls w).pc = .w1
 
 structure Inv (cfg : Cfg) (g : Sh) (ls : Tid → Loc) : Prop where
   role0 : (ls 0).pc.isProducer = true
-  roleW : ∀ t, 1 ≤ t → (ls t).pc.isWorker = true
-  roleX : ∀ t, cfg.N < t → (ls t).pc = .wret
-  mx : ∀ t, (ls t).pc.holds = true ↔ g.mutex = some t
-  cons : ∀ t, t ∈ g.consume → (ls t).pc = .w3p
+  roleW : ∀ t : Nat, 1 ≤ t → (ls t).pc.isWorker = true
+  roleX : ∀ t : Nat, cfg.N < t → (ls t).pc = .wret
+  mx : ∀ t : Nat, (ls t).pc.holds = true ↔ g.mutex = some t
+  cons : ∀ t : Nat, t ∈ g.consume → (ls t).pc = .w3p
   prod : g.produce = [] ∨ (g.produce = [0] ∧ ((ls 0).pc = .p3p ∨ (ls 0).pc = .p10p))
-  tkseq : g.tk = (List.range g.tk.length).reverse
+  tkseq : (List.range g.tk.length).reverse = g.tk
   slot : g.taskSet = true → g.fa = g.tk.length ∧ g.fb = cfg.startOf g.fa
   pub : g.tk.length + b2n g.taskSet = (ls 0).fi + b2n (ls 0).pc.published
   fiK : (ls 0).fi ≤ cfg.K ∧ ((ls 0).pc.inLoop = true → (ls 0).fi < cfg.K) ∧
@@ -68,11 +68,11 @@ structure Inv (cfg : Cfg) (g : Sh) (ls : Tid → Loc) : Prop where
     ((ls 0).pc = .p12 ∨ (ls 0).pc = .p13 ∨ (ls 0).pc = .p14 ∨ (ls 0).pc = .pend)
   dn2 : ((ls 0).pc = .p13 ∨ (ls 0).pc = .p14 ∨ (ls 0).pc = .pend) → g.done = true ∧ g.consume = []
   dn3 : (ls 0).pc = .p12 → g.done = true
-  ret1 : ∀ t, t ∈ g.returned → (ls t).pc = .wret
-  ret2 : ∀ t, 1 ≤ t → t ≤ cfg.N → (ls t).pc = .wret → t ∈ g.returned ∧ g.done = true
-  join : ((ls 0).pc = .p14 → 1 ≤ (ls 0).j ∧ ∀ w, 1 ≤ w → w < (ls 0).j → w ∈ g.returned) ∧
-    ((ls 0).pc = .pend → ∀ w, 1 ≤ w → w ≤ cfg.N → w ∈ g.returned)
-  wk : ∀ t, ((ls t).pc = .w3 → g.taskSet = false ∧ g.done = false) ∧
+  ret1 : ∀ t : Nat, t ∈ g.returned → (ls t).pc = .wret
+  ret2 : ∀ t : Nat, 1 ≤ t → t ≤ cfg.N → (ls t).pc = .wret → t ∈ g.returned ∧ g.done = true
+  join : ((ls 0).pc = .p14 → 1 ≤ (ls 0).j ∧ ∀ w : Nat, 1 ≤ w → w < (ls 0).j → w ∈ g.returned) ∧
+    ((ls 0).pc = .pend → ∀ w : Nat, 1 ≤ w → w ≤ cfg.N → w ∈ g.returned)
+  wk : ∀ t : Nat, ((ls t).pc = .w3 → g.taskSet = false ∧ g.done = false) ∧
     ((ls t).pc = .w4 → g.done = true ∨ g.taskSet = true) ∧
     ((ls t).pc = .w5 → g.done = true) ∧
     (((ls t).pc = .w6a ∨ (ls t).pc = .w6b ∨ (ls t).pc = .w7) → g.taskSet = true) ∧
@@ -92,7 +92,7 @@ theorem mem_signalChoices {c l : CondVar} (h : c ∈ signalChoices l) :
     obtain ⟨w, hw, rfl⟩ := h
     exact Or.inr ⟨w, hw, rfl⟩
 
-theorem initLoc_cases (cfg : Cfg) (t : Tid) :
+theorem initLoc_cases (cfg : Cfg) (t : Nat) :
     (t = 0 ∧ initLoc cfg t = { pc := .p0 }) ∨ (1 ≤ t ∧ t ≤ cfg.N ∧ initLoc cfg t = { pc := .w0 }) ∨
     (1 ≤ t ∧ cfg.N < t ∧ initLoc cfg t = { pc := .wret }) := by
   unfold initLoc
